@@ -33,10 +33,14 @@ MIN_NONTRIVIAL = {'quick': 2000, 'thorough': 50000}
 
 LATENCY_BOUND_BITS = 16          # accepted -> delivered, in bit periods (probe: worst 11.75)
 STALL_TOLERATED_BITS = 8         # longest receiver stall used by the stall pacing classes, in bit periods (see run_check)
+TAKE_WINDOW_BITS = 14            # take-delay sweeps: a byte is held at most this long after it completed (bursts: 11)
 STALL_BOUND_BITS = 16            # a byte offered this long without being accepted = producer stalled (inconclusive)
 QUICK_RATIOS = [(4, 1), (5, 1), (6, 1), (8, 1), (16, 1)]
 WIDE_RATIOS = [(4, 1), (17, 4), (9, 2), (5, 1), (6, 1), (7, 1), (8, 1), (9, 1), (10, 1), (50e6, 115200 * 40), (12, 1),
                (13, 1), (16, 1), (25, 1), (33, 2), (40, 1)]
+FU_VARIANTS = [1, 2, 115200, 1e6, 3]          # the same ratio requested through different (f_sys, f_uart) float pairs
+REAL_PAIRS = [(50e6, 115200), (100e6, 921600), (12e6, 115200), (25e6, 1e6), (48e6, 3e6), (27e6, 1e6), (14.7456e6, 115200),
+              (16e6, 1.5e6), (29e6, 2e6), (50e6, 230400 * 8)]
 SPECIAL_BYTES = [0x00, 0xFF, 0x55, 0xAA, 0x01, 0x80, 0x7F, 0xFE, 0x0F, 0xF0]
 
 
@@ -146,6 +150,47 @@ def eof_stall_schedule(case, rnd):
     return rle(bits)
 
 
+def take_schedule(case, rnd):
+    """Per-frame sweep of the cycle at which the consumer takes a byte, across the whole legal window up to and including the
+    last legal cycle.  A dry run with an always-ready receiver gives the handshake cycle h[k] of every byte (the byte
+    completes on the edge of cycle e[k] = h[k]-1 and, ready being high, valid rises on the same edge; ready cannot influence the transmit side, so e[k] is the same in the real run).
+    Byte k may be taken at any cycle from h[k] up to and including e[k+1], the cycle on whose edge byte k+1 completes (the
+    block hands the old byte over on that very edge and keeps valid high for the new one); one cycle later the old byte is
+    overwritten, which is outside the property (no back-pressure).  ready is low except where the schedule needs it:
+      late_take: high at T-1 (the block raises valid) and at T (hand-over)
+      withdraw : high at h[k] (valid rises one cycle after completion), withdrawn, high again at T only
+    T = last legal cycle - j, j swept cycle by cycle (full), over the last five cycles (edge) or random."""
+    rd = case['ready']
+    period = realised_period(case['fs'], case['fu'])
+    dry = simulate(dict(case, ready=dict(mode='always', maxgap=0), ready_rle=None), None)
+    h = [t for t in range(dry['cycles']) if dry['dv'][t] and dry['dr'][t]]
+    cap = TAKE_WINDOW_BITS * period
+    bits = [0] * (dry['cycles'] + cap + 4 * period)
+    over = rd.get('overshoot', 0)          # experiments only: > 0 takes after the last legal cycle
+    for k, hk in enumerate(h):
+        e = hk - 1
+        last = h[k + 1] - 1 if k + 1 < len(h) else e + 11 * period
+        last = min(last, e + cap)
+        first = hk if rd['mode'] == 'late_take' else hk + 1      # withdraw: valid is only up from h[k]+1
+        W = max(0, last - first)
+        if rd['sweep'] == 'full':
+            j = k % (W + 1)
+        elif rd['sweep'] == 'edge':
+            j = min(W, k % 5)
+        else:
+            j = rnd.randrange(0, W + 1)
+        T = last - j + over
+        if rd['mode'] == 'late_take':
+            bits[T - 1] = 1
+            bits[T] = 1
+        else:
+            bits[hk] = 1
+            bits[T] = 1
+    for u in range(len(bits) - 2 * period, len(bits)):
+        bits[u] = 1
+    return rle(bits)
+
+
 def simulate(case, rnd=None):
     """Run the real blocks on one case; returns the recorded per-cycle traces.
 
@@ -158,6 +203,8 @@ def simulate(case, rnd=None):
     ready_rle = case.get('ready_rle')
     if rd['mode'] == 'eof_stall' and ready_rle is None:
         ready_rle = eof_stall_schedule(case, rnd)
+    if rd['mode'] in ('late_take', 'withdraw') and ready_rle is None:
+        ready_rle = take_schedule(case, rnd)
     ready = Ready(rd['mode'], rd['maxgap'], rnd, ready_rle)
     hw, sim, W = build(fs, fu, case.get('order', 0))
     s_valid, s_v, s_ready, txw = W['s_valid'], W['s_v'], W['s_ready'], W['tx']
@@ -408,6 +455,8 @@ def make_data(kind, n, rnd):
         while len(out) < n:
             out += [rnd.choice(alpha)] * rnd.randrange(1, 4)
         return out[:n]
+    if kind == 'toggle':           # every bit cell differs from its neighbour, then random
+        return ([0x55, 0xAA, rnd.getrandbits(8), 0xAA, 0x55, rnd.getrandbits(8)] * ((n + 5) // 6))[:n]
     if kind == 'special':
         return [rnd.choice(SPECIAL_BYTES) for _ in range(n)]
     return [rnd.getrandbits(8) for _ in range(n)]
@@ -437,15 +486,33 @@ def plan(tier, seed):
             specs.append(dict(fs=fs, fu=fu, kind='random', n=16, gap=['mixed', 'rand', 'phase'][k % 3],
                               ready=['rand_long', 'eof_stall', 'sparse'][k % 3], order=(k + 2) % 3))
             specs.append(dict(fs=fs, fu=fu, kind='special', n=24, gap='none', ready='rand_long', order=k % 3))
+        for k, (fs, fu) in enumerate(QUICK_RATIOS):      # take-delay swept cycle by cycle over the whole legal window
+            specs.append(dict(fs=fs, fu=fu, kind='perm256', n=256, gap='none', ready='late_take', sweep='full', order=k % 3))
+            specs.append(dict(fs=fs, fu=fu, kind='random', n=96, gap='none', ready='withdraw', sweep='full', order=(k + 1) % 3))
+        for k, (fs, fu) in enumerate(WIDE_RATIOS):       # ... and over the last legal cycles, bursts and gaps
+            specs.append(dict(fs=fs, fu=fu, kind='random', n=20, gap=['none', 'one', 'phase'][k % 3], ready='late_take', sweep='edge', order=k % 3))
+            specs.append(dict(fs=fs, fu=fu, kind='repeats', n=20, gap=['none', 'mixed'][k % 2], ready='withdraw', sweep='edge', order=(k + 1) % 3))
+            specs.append(dict(fs=fs, fu=fu, kind='special', n=20, gap=['rand', 'none'][k % 2], ready=['late_take', 'withdraw'][k % 2], sweep='rand',
+                              order=(k + 2) % 3))
+        for k, r2 in enumerate(range(8, 129)):           # every ratio 4.0, 4.5 .. 64.0 through varying float pairs
+            fu = FU_VARIANTS[k % len(FU_VARIANTS)]
+            specs.append(dict(fs=r2 * fu / 2, fu=fu, kind='toggle', n=6, gap=['none', 'none', 'one'][k % 3], ready=['always', 'rand'][k % 2], order=k % 3))
+        for k, (fs, fu) in enumerate(REAL_PAIRS):        # real clock / baud pairs (ratios up to 434)
+            specs.append(dict(fs=fs, fu=fu, kind='toggle', n=3 if fs / fu > 200 else 6, gap='none', ready='always', order=k % 3))
     else:
-        readymodes = readymodes + ['eof_stall', 'sparse', 'rand_long']
+        readymodes = readymodes + ['eof_stall', 'sparse', 'rand_long', 'late_take', 'withdraw']
         ratios = [(r, 1) for r in range(4, 41)] + [(17, 4), (9, 2), (50e6, 115200 * 40), (33, 2), (50e6, 115200 * 20), (123, 10)]
         for fs, fu in ratios:
             specs.append(dict(fs=fs, fu=fu, kind='perm256', n=256, gap='none', ready='always', order=0))
             specs.append(dict(fs=fs, fu=fu, kind='perm256', n=256, gap='phase', ready='worst', order=1))
-            for j in range(298):
+            for j in range(250):
                 specs.append(dict(fs=fs, fu=fu, kind=['repeats', 'random', 'special'][j % 3], n=40, gap=gapmodes[j % 5],
-                                  ready=readymodes[(j // 5) % 6], order=j % 3))
+                                  ready=readymodes[(j // 5) % 8], sweep=['full', 'edge', 'rand'][(j // 40) % 3], order=j % 3))
+        for k, r2 in enumerate(range(8, 129)):
+            for v, fu in enumerate(FU_VARIANTS):
+                specs.append(dict(fs=r2 * fu / 2, fu=fu, kind='toggle', n=12, gap=gapmodes[(k + v) % 5], ready=readymodes[(k + v) % 3], order=v % 3))
+        for k, (fs, fu) in enumerate(REAL_PAIRS + [(50e6, 9600), (100e6, 115200)]):
+            specs.append(dict(fs=fs, fu=fu, kind='toggle', n=4 if fs / fu > 200 else 12, gap='none', ready='always', order=k % 3))
     for k, s in enumerate(specs):
         s['id'] = k
     return specs
@@ -463,6 +530,9 @@ def expand(spec, seed):
         ready = dict(mode='worst', name='sparse', maxgap=rr.randrange(period, 4 * period + 1) - 1, stall_bits=STALL_TOLERATED_BITS + 1)
     elif spec['ready'] == 'rand_long':     # random not-ready runs up to 4 bit periods
         ready = dict(mode='rand', name='rand_long', maxgap=4 * period, stall_bits=STALL_TOLERATED_BITS + 1)
+    elif spec['ready'] in ('late_take', 'withdraw'):      # per-frame sweep of the take cycle up to the last legal one
+        ready = dict(mode=spec['ready'], name=spec['ready'] + '/' + spec.get('sweep', 'full'), sweep=spec.get('sweep', 'full'),
+                     maxgap=TAKE_WINDOW_BITS * period, stall_bits=TAKE_WINDOW_BITS + 1)
     else:
         ready = dict(mode=spec['ready'], name=spec['ready'], maxgap=period // 2)
     case = dict(fs=spec['fs'], fu=spec['fu'], order=spec['order'], data=data, gaps=gaps,
@@ -563,6 +633,11 @@ def run_check(run, tier, seed, shard):
                'serializer inserts), and the measured tolerance at every ratio 4..40 is a stall of 11 bit periods - 2 clocks from '
                'end of frame; the classes stay <= %d bit periods (+2 clocks), and the delivery deadline of these runs is extended '
                'by %d bit periods' % (STALL_TOLERATED_BITS, STALL_TOLERATED_BITS, STALL_TOLERATED_BITS + 1))
+    run.assume('take-delay sweep classes (late_take, withdraw): a finished byte may be taken up to and including the cycle on whose edge '
+               'the next byte completes (the unchanged block hands the old byte over on that edge and keeps valid for the new one; one '
+               'cycle later it is overwritten, which is the no-back-pressure limit); the take cycle is swept cycle by cycle over that '
+               'window (capped at %d bit periods after completion), the deadline of these runs is extended by %d bit periods' % (
+                   TAKE_WINDOW_BITS, TAKE_WINDOW_BITS + 1))
     run.assume('"later presented" is judged as bounded progress: delivered within %d bit periods of acceptance' % LATENCY_BOUND_BITS)
     run.assume('the producer keeps v stable while valid is high and unaccepted; v carries garbage while valid is low')
     run.assume('deserializer sampling is judged on the rx_sample wire: pulses inside a frame must lie in the central half of the '
